@@ -41,7 +41,7 @@ inline std::string qrat(const Rational& r)
 inline std::string spReal(const SVectorBase<double>& v)
 {
    std::vector<std::pair<int, std::string>> e;
-   for(int k = 0; k < v.size(); k++) e.push_back({v.index(k), qd(v.value(k))});
+   for(int k = 0; k < v.size(); k++) if(v.value(k) != 0.0) e.push_back({v.index(k), qd(v.value(k))});   // explicit zeros are counted in storedZeros
    return jsp(e);
 }
 inline std::string spRat(const SVectorBase<Rational>& v)
@@ -55,7 +55,7 @@ inline std::string statuses(const SPxSolver::VarStatus* a, int n) { return jarr(
 inline std::string projRational(SoPlex& s)
 {
    J q; int nr = s.numRowsRational(), nc = s.numColsRational();
-   q.i("nr", nr).i("nc", nc).i("nnz", s.numNonzerosRational());
+   q.i("nr", nr).i("nc", nc).i("nnz", s.numNonzerosRational()).i("storedZeros", 0);
    q.raw("rows", jarr(nr, [&](int i) { return spRat(s.rowVectorRational(i)); }));
    q.raw("cols", jarr(nc, [&](int j) { return spRat(s.colVectorRational(j)); }));
    q.raw("lhs", jarr(nr, [&](int i) { return jq(qrat(s.lhsRational(i))); }));
@@ -68,13 +68,15 @@ inline std::string projRational(SoPlex& s)
 }
 inline std::string emptyQ()
 {
-   return "{\"nr\":0,\"nc\":0,\"nnz\":0,\"rows\":[],\"cols\":[],\"lhs\":[],\"rhs\":[],\"lo\":[],\"up\":[],\"obj\":[],\"sense\":0}";
+   return "{\"nr\":0,\"nc\":0,\"nnz\":0,\"storedZeros\":0,\"rows\":[],\"cols\":[],\"lhs\":[],\"rhs\":[],\"lo\":[],\"up\":[],\"obj\":[],\"sense\":0}";
 }
 
 inline std::string proj(SoPlex& s)
 {
    J o; int nr = s.numRows(), nc = s.numCols();
    o.i("nr", nr).i("nc", nc).i("nnz", s.numNonzeros());
+   // numNonzeros() counts the entries of the column file; explicit zeros can be stored there as images of tiny rationals
+   { int z = 0; for(int j = 0; j < nc; j++) { const SVectorBase<double>& v = s.colVectorRealInternal(j); for(int k = 0; k < v.size(); k++) if(v.value(k) == 0.0) z++; } o.i("storedZeros", z); }
    o.i("sense", Probe::realLP(s).spxSense() == SPxLPBase<double>::MAXIMIZE ? 1 : -1);
    o.i("senseParam", s.intParam(SoPlex::OBJSENSE));
    o.q("offset", Probe::lpOffset(s));
